@@ -557,7 +557,9 @@ pub fn run_stress(cfg: &StressCfg, shard: &mut Shard) -> (u64, u64, bool) {
     }
     let total_threads = cfg.writers + cfg.readers + cfg.churners;
     // hand-off of freshly created stream handles to the dropper threads
-    let (hand_tx, hand_rx) = std::sync::mpsc::channel::<RxH>();
+    // bounded: handles waiting in the hand-off queue are live streams held by the harness, their number
+    // must not grow with the number of cycles
+    let (hand_tx, hand_rx) = std::sync::mpsc::sync_channel::<RxH>(2);
     let hand_rx = Arc::new(std::sync::Mutex::new(hand_rx));
     let mut dropper_joins = Vec::new();
     for d in 0..cfg.droppers {
@@ -695,7 +697,12 @@ pub fn run_stress(cfg: &StressCfg, shard: &mut Shard) -> (u64, u64, bool) {
                 if have_droppers && r.chance(1, 2) {
                     // create a stream and hand its only handle to a dropper thread
                     if let Some(n) = crx.add_stream(false) {
-                        let _ = hand.send(n);
+                        if let Err(e) = hand.try_send(n) {
+                            // queue full (or closed): drop it here
+                            match e {
+                                std::sync::mpsc::TrySendError::Full(h) | std::sync::mpsc::TrySendError::Disconnected(h) => h.drop_rx(),
+                            }
+                        }
                     }
                     ctx.try_send(id);
                     id += 1;
